@@ -188,6 +188,21 @@ def run(rep, tier, seed):
                     rep.fail(f"{base}/wrong-value", f"{req['stmts']} -> {[str(g) for g in got]}, model {[str(w) for w in m['want']]}", replay); break
         else:
             tally["exact_matched"] += 1; per_fn[f"{f}/{form}"] += 1
+    # negative controls (vacuity guard): a model value that is off by one unit in the last place of the pool's grid must be noticed
+    neg_tried = neg_caught = 0
+    for req, m, (resp, oc) in list(zip(reqs, meta, outs))[:: max(1, len(reqs) // 60)]:
+        if oc != "ok" or m["form"].startswith("concat") or "steps" not in (resp or {}): continue
+        st = resp["steps"][-1]
+        if st.get("r") != "ok": continue
+        v = absval.absval(st["v"])
+        got = [num_of(v)] if m["shape"] is None else ([num_of(e) for e in v[4]] if v[0] == 'mat' else None)
+        if got is None or None in got: continue
+        wrong = list(m["want"]); wrong[-1] = wrong[-1] + Fraction(1, 8)
+        neg_tried += 1
+        if got != wrong and got == m["want"]: neg_caught += 1
+    if neg_tried and neg_caught != neg_tried and not rep.failures:
+        raise tlc.TlcError(f"negative control failed: {neg_tried - neg_caught} perturbed expectations were not distinguished")
+    rep.cov.update({"negative_controls_tried": neg_tried, "negative_controls_passed": neg_caught})
     rep.cov.update({"states": t.generated, "distinct_states": t.distinct, "transitions": t.generated, "cases_emitted": len(cases),
                     "traces_validated_against_impl": len(reqs), "exact_matched": tally["exact_matched"],
                     "operand_unbuildable(not judged)": tally["operand-unbuildable(not judged)"],
